@@ -242,6 +242,12 @@ func (w *queueWorld) monitorCall(c sim.Call) {
 			if jobutil.IsStarted(j) {
 				w.c.Violate("C06", "rejected-never-runs", "rejected job %s is started", name)
 			}
+			// C07: the concurrency policy is applied when the Job is due, not while it is still
+			// waiting for its startAfter time (it may well be startable once that time has passed)
+			if sp := j.Spec.StartPolicy; sp != nil && sp.StartAfter != nil && sp.StartAfter.UnixNano() > w.now() {
+				w.c.Violate("C07", "not-rejected-before-due", "job %s was rejected at %d, before its startAfter %d: it can never start although the policy may allow it when due",
+					name, w.now(), sp.StartAfter.UnixNano())
+			}
 		}
 	}
 }
